@@ -88,6 +88,10 @@ func prepareAux(c *SrvConn, fid uint32, o *opSpec, role string) bool {
 }
 
 func runPair(rcx *RunCtx, pc pairCase) {
+	pairVariant = rcx.Index % 5
+	if rcx.Index >= len(pairCatalogue) {
+		pairVariant = rcx.Plan.Choose(5)
+	}
 	pa, pb, ok := pickPaths(pc.A, pc.B, pc.Rel)
 	rcx.Label = fmt.Sprintf("pair %s|%s|%s|cross=%v", pc.A.Name, pc.B.Name, pc.Rel, pc.CrossCon)
 	if !ok {
@@ -330,11 +334,17 @@ func init() {
 				runPair(rcx, pairCatalogue[rcx.Index])
 				return
 			}
+			if rcx.Plan.Choose(4) == 0 {
+				// a catalogue pair again, with other request details (setattr
+				// masks) and a tape-chosen schedule
+				runPair(rcx, pairCatalogue[rcx.Plan.Choose(len(pairCatalogue))])
+				return
+			}
 			runRandomWorkload(rcx, workloadOpts{})
 		},
 		Directed: func(string) int { return len(pairCatalogue) },
 		Quick:    24000, Thorough: 1600000, QuickSecs: 60, ThorSecs: 1500,
-		Rule: "directed: every ordered pair (A,B) of 24 backend-reaching request kinds x 8 path relations x same/other connection, A parked inside its backend call by a hold, B issued, run to quiescence, A released (all in every tier); random: concurrent pipelined peers on 1-4 connections over a shared tree with tape-driven scheduling. Oracle: conflict matrix from the comments on p9.File evaluated by the backend's overlap monitor at every call entry; Open count per handle. A run is non-trivial if A actually parked inside the backend (directed) or >=2 backend calls were in flight together (random); distinct = distinct (scenario label, schedule fingerprint).",
+		Rule: "directed: every ordered pair (A,B) of 24 backend-reaching request kinds x 8 path relations x same/other connection, A parked inside its backend call by a hold, B issued, run to quiescence, A released (all in every tier; Tsetattr masks rotate through mode / times only / empty / size / owner); random: 1/4 catalogue pairs again with other masks and tape-chosen schedules, 3/4 concurrent pipelined peers on 1-4 connections over a shared tree with tape-driven scheduling. Oracle: conflict matrix from the comments on p9.File evaluated by the backend's overlap monitor at every call entry; Open count per handle. A run is non-trivial if A actually parked inside the backend (directed) or >=2 backend calls were in flight together (random); distinct = distinct (scenario label, schedule fingerprint).",
 		Assume: []string{"task switches happen at synchronisation operations, atomics, transport and backend calls only", "simfs path identity = slash path of the handle; handles on removed entries count as distinct paths"},
 		Real:   []string{"p9.Server", "p9 path tree / fid table / handlers", "p9 wire codec"},
 		Stub:   []string{"transport (simnet pipes)", "backend tree (simfs)", "raw 9P peer (refcodec)"},
@@ -356,6 +366,10 @@ func init() {
 				return
 			} else if k -= len(c06BatchCatalogue); k < c06ExactCount() {
 				runC06ExactMsize(rcx, k)
+				return
+			}
+			if rcx.Plan.Choose(6) == 0 {
+				runPair(rcx, pairCatalogue[rcx.Plan.Choose(len(pairCatalogue))])
 				return
 			}
 			runRandomWorkload(rcx, workloadOpts{Flush: true, BadFrames: rcx.Index%2 == 1})
